@@ -100,7 +100,7 @@ type lexeme struct {
 var refOperators = []string{"(", ")", "[", "]", ",", ";", ".", "+", "-", "*", "/", "%", "=", "=>", "<", "<=", "<>", "<@", ">", ">=", "!", "!=", "!~", "!~*",
 	":", "::", "|", "||", "&", "&&", "@", "@>", "@@", "#", "#>", "#>>", "#-", "?", "?|", "?&", "~", "~*", "->", "->>"}
 
-var refWords = []string{"SELECT", "FROM", "WHERE", "a", "b1", "_x", "tbl", "JOIN", "ON", "AND", "NOT", "NULL", "AS", "IN", "BY", "x_y_9", "naïve", "Ünï", "日本", "col̃", "LIKE",
+var refWords = []string{"SELECT", "FROM", "WHERE", "a", "b1", "_x", "tbl", "JOIN", "ON", "AND", "NOT", "NULL", "AS", "IN", "BY", "x_y_9", "naïve", "Ünï", "日本", "col̃", "संख्या१", "col１", "عمود٣", "x२y", "a_１", "ñ‿b", "LIKE",
 	"GROUP", "ORDER", "LEFT", "RIGHT", "INNER", "OUTER", "CROSS", "NATURAL", "FULL", "GROUPING", "left", "Order",
 	"INSERT", "VALUES", "UPDATE", "SET", "DELETE", "CASE", "WHEN", "END", "UNION", "ALL", "LIMIT", "OFFSET", "DESC", "IS", "BETWEEN", "EXISTS", "WITH"}
 
